@@ -46,7 +46,7 @@ CATALOGUE = [
     ("C15", "gbasis/evals/stress_tensor.py", "                output[i] -= (1 - 2 * alpha) * evaluate_deriv_reduced_density_matrix(", "                output[i] -= (1 - alpha) * evaluate_deriv_reduced_density_matrix(", "detect"),
     ("C16", "gbasis/base_one.py", "            matrix_contraction = np.tensordot(transform, matrix_contraction, (1, 1))\n            matrix_contraction = np.concatenate(np.swapaxes(matrix_contraction, 0, 1), axis=0)",
      "            matrix_contraction = np.tensordot(transform[::-1], matrix_contraction, (1, 1))\n            matrix_contraction = np.concatenate(np.swapaxes(matrix_contraction, 0, 1), axis=0)", "detect"),
-    ("C17", "gbasis/integrals/_two_elec_int.py", "    integrals = np.transpose(integrals_horiz_b2, (1, 0, 3, 2, 4, 6, 5, 7))", "    integrals = np.transpose(integrals_horiz_b2, (1, 0, 3, 2, 4, 6, 5, 7)) * (1.0 - 2.0 * (angmom_a < angmom_c))", "detect"),
+    ("C17", "gbasis/integrals/_two_elec_int.py", "    integrals = np.transpose(integrals_horiz_b2, (1, 0, 3, 2, 4, 6, 5, 7))", "    integrals = np.transpose(integrals_horiz_b2, (1, 0, 3, 2, 4, 6, 5, 7)) * (1.0 - 2.0 * ((angmom_a != angmom_b) and (angmom_c != angmom_d)))", "detect"),
     ("C18", "gbasis/parsers.py", 'dict_angmom = {"s": 0, "p": 1, "d": 2, "f": 3, "g": 4, "h": 5, "i": 6, "k": 7}\n    # remove first part (everything before the first shell)',
      'dict_angmom = {"s": 0, "p": 1, "d": 2, "f": 3, "g": 4, "h": 5, "i": 6, "k": 8}\n    # remove first part (everything before the first shell)', "detect"),
     ("C19,C18", "gbasis/parsers.py", "    coord_types = list(coord_types)\n", "", "detect"),
